@@ -11,6 +11,8 @@ CONSTANTS
   PenaltySet = {1}
   KSet = {1, 2}
   PreSet = {0, 1}
+  PostSet = {0}
+  TransOn = FALSE
   MaxH = 4
 INIT Init
 NEXT NextMC
@@ -18,5 +20,5 @@ SYMMETRY Sym
 VIEW View
 CONSTRAINT Bound
 INVARIANTS Inv OnTime BoundedTermination
-PROPERTIES AssignFromHead Fifo QueueStep Eligible RejectedNoChange GhostExact DEPartOK Status Attempt NoEarlyTimeout ExactTimeout NewAttempt Success Timeout Penalty Signed Callback
+PROPERTIES AssignFromHead Fifo QueueStep Eligible RejectedNoChange GhostExact CreationExact DEPartOK Status Attempt NoEarlyTimeout ExactTimeout NewAttempt Success Timeout Penalty Signed Callback TransitionStep
 CHECK_DEADLOCK FALSE
